@@ -96,9 +96,8 @@ def main() -> int:
     n_prog = 80 if t == "quick" else 600
     cases = [("lists", i, sd, (), t == "thorough" or i % 4 == 0) for i in range(n_lists)]
     cases += [("prog", i, sd, (), i % 4 == 0) for i in range(n_prog)]
-    if t == "thorough":
-        for hz in lists.HAZARDS:
-            cases += [("lists", i, sd, (hz,), False) for i in range(100)]
+    for hz in lists.HAZARDS:
+        cases += [("lists", i, sd, (hz,), False) for i in range(100 if t == "thorough" else 24)]
     for case, st, res in run_cases(run_case, cases):
         if st != "ok":
             rep.inconclusive_because(f"case {case[:2]} failed: {res[-300:]}")
@@ -131,6 +130,11 @@ def main() -> int:
 
         def report(msg, key):
             fids = [HAZARD_FINDING[h] for h in hz if h in HAZARD_FINDING and HAZARD_FINDING[h] in rep.open_findings]
+            # a finding explains only its own symptom: the leak findings never excuse a sanitizer report or a crash,
+            # the shallow-copy finding never excuses a leak or an overflow
+            want = {f["id"]: f.get("expect_c09", "") for f in rep.findings}
+            fids = [fid for fid in fids if (want.get(fid) == "leak") == (key == "leak") and
+                    (key == "leak" or any(x in key for x in ("use-after-free", "Invalid read", "SEGV", "null pointer")) or key.startswith("fw:") or key.startswith("gate:"))]
             if fids:
                 rep.known(fids[0], msg, w)
             elif "list-grow" in hz:
